@@ -32,7 +32,9 @@ def gen_cases(ctx, prop="C06"):
                 subsets = [s for s in subsets if len(s) <= 1] + rng.sample(subsets, 40)
             for fail in subsets:
                 for allow in (False, True):
-                    jobs = [[(("exit", rng.choice(codes)) if (v, c) in fail else ("exit", 0), []) for c in range(ncmds)] for v in range(nv)]
+                    # (half of the commands print something before they exit: "no\n" / "ok\n")
+                    jobs = [[((("exit", rng.choice(codes)), rng.choice([[], [110, 111, 10]])) if (v, c) in fail else (("exit", 0), rng.choice([[], [], [111, 107, 10]])))
+                             for c in range(ncmds)] for v in range(nv)]
                     hook = rng.choice([("none", "none"), ("ok", "ok"), ("fail", "ok"), ("ok", "fail"), ("none", "fail")])
                     before = {"none": [], "ok": [("exit", 0)], "fail": [("exit", rng.choice(codes))]}[hook[0]]
                     after = {"none": [], "ok": [("exit", 0)], "fail": [("exit", 3)]}[hook[1]]
@@ -42,11 +44,11 @@ def gen_cases(ctx, prop="C06"):
     for n in range(1, 256):
         for allow in (False, True):
             pos = n % 2
-            jobs = [[(("exit", n) if c == pos else ("exit", 0), []) for c in range(2)]]
+            jobs = [[(("exit", n) if c == pos else ("exit", 0), ([115, 116, 32, 37 + n % 80, 10] if n % 3 == 0 else [])) for c in range(2)]]
             add({"cond": None, "before": [], "jobs": jobs, "after": [("exit", 0)], "allow": allow, "novar": True}, "status")
     # random larger tasks
     for _ in range(1500 if thorough else 250):
-        add(tasklib.rand_abstract(rng, rng.randint(1, 8), rng.randint(1, 5), novar=rng.random() < 0.2), "rand")
+        add(tasklib.rand_abstract(rng, rng.randint(1, 8), rng.randint(1, 5), novar=rng.random() < 0.2, outs=rng.random() < 0.5), "rand")
     return cases
 
 
@@ -153,7 +155,7 @@ def run_reruns(ctx, res, cases):
         c.pop("_obs", None)
 
 
-CFG_MODES = {"direct": ["t"], "run-task": ["run", "task", "t"], "stage": ["p"], "stage-overrides": ["po"], "nested": ["outer"]}
+CFG_MODES = {"direct": ["t"], "run-task": ["run", "task", "t"], "stage": ["p"], "stage-overrides": ["po"], "nested": ["outer"], "stage-allow": ["pa"]}
 FOOTER_CFG = """
 Definition BAD := Eval vm_compute in bad_ids (fun c => trace_ok (fst c) (mkObs (fst (snd c)) false false false 0%Z []) && Bool.eqb (o_err (run_task (fst c))) (snd (snd c))) cases.
 Print BAD.
@@ -176,7 +178,9 @@ def run_cfg(ctx, res, cases):
     jobs = []
     for k, c in enumerate(cases):
         doc = {"tasks": {"t": tasklib.to_config_task(c["a"])},
-               "pipelines": {"p": [{"task": "t"}], "po": [{"task": "t", "env": {"SOME": "x"}, "variables": {"v": "1"}}], "outer": [{"pipeline": "p", "name": "inner"}]}}
+               "pipelines": {"p": [{"task": "t"}], "po": [{"task": "t", "env": {"SOME": "x"}, "variables": {"v": "1"}}], "outer": [{"pipeline": "p", "name": "inner"}],
+                             # the STAGE's allow_failure lets the pipeline go on; it does not make the task run on after a failing command
+                             "pa": [{"task": "t", "allow_failure": True}]}}
         jobs.append({"id": k, "files": {"cfg.json": clilib.jcfg(doc)}, "argv": ["-c", "cfg.json", "--raw"] + CFG_MODES[c["mode"]], "keep": ["out"]})
     out = clilib.run_cli(ctx.workdir, jobs)
     items = []
@@ -193,7 +197,15 @@ def run_cfg(ctx, res, cases):
         except ValueError as e:
             res.mismatches.append({"case": c, "what": str(e), "observed": r})
             continue
-        items.append("(%d%%N, (%s, (%s, %s)))" % (k, tasklib.coq_task(c["a"]), tr, vlib.cbool(r["rc"] != 0)))
+        failed = r["rc"] != 0
+        if c["mode"] == "stage-allow":      # the stage's failure is forgiven by the pipeline: only the trace is judged (and the process must not fail)
+            if failed:
+                res.violations.append({"class": None, "what": "a pipeline whose only stage allows failure ended with a failure status", "case": c, "observed": r})
+                continue
+            failed = "(o_err (run_task %s))" % tasklib.coq_task(c["a"])
+        else:
+            failed = vlib.cbool(failed)
+        items.append("(%d%%N, (%s, (%s, %s)))" % (k, tasklib.coq_task(c["a"]), tr, failed))
     bad = set()
     for rc, o, start, cnt in vlib.coq_eval_sharded(ctx.workdir, "cases_c06cfg", HEADER, items, lambda: FOOTER_CFG, shard=500):
         if rc != 0:
